@@ -23,3 +23,6 @@ def run(prog, chk):
     PC.check_guards(prog, chk, "C02.guards", [PFX + r for r in (
         "DocumentHashDoesNotExist", "DocumentHashExistence", "InputHashAlgorithmVerification", "DocumentHashVerification",
         "AggregationChainInputLevelVerification")])
+    chk.rule("C02.level", "input level rule over the numeric boundaries (0, equal, one above / below the first level correction, 0xff, 0x100, "
+                          "values above 32 bits, legacy record)", floor=20)
+    PC.check_input_level(prog, chk, "C02.level")
